@@ -334,6 +334,19 @@ def check_class(run, repo, eff, fr, ci, fams, encs):
             shapes.add((slot, size))
             if e.d['kind'] != kind:
                 bad('C02-T', 'accessor', 'memory accessor Mem%s used; this family uses Mem%s' % (e.d['kind'].upper(), kind.upper()))
+        if fam.size == 8 and not fam.excl:
+            # the single 64-bit access is chosen exactly under HaveLPAE() && address<2:0> == '000'
+            want8 = ('cmp', 'Eq', low(tp.address[0], 3), const(0))
+
+            def lpae_guard(t):
+                t = N(t, asg)
+                return t[0] == 'and' and any(x == ('call', 'have_lpae', ()) for x in t[1]) and any(norm(x) == want8 for x in t[1]) and len(t[1]) == 2
+            for e in mems:
+                big = N(e.d['size'], asg) == const(8)
+                if big and not guard_has(e.guards, lpae_guard, True):
+                    bad('C02-T', 'doubleword alignment test [%s]' % tag, 'the 8-byte access must be chosen exactly when HaveLPAE() and address<2:0> == 000')
+                if not big and not guard_has(e.guards, lpae_guard, False):
+                    bad('C02-T', 'doubleword alignment test [%s]' % tag, 'the two word accesses must be chosen exactly when not (HaveLPAE() and address<2:0> == 000)')
         if fam.size == 8 and not fam.excl and mems and shapes != {(0, const(8)), (0, const(4)), (1, const(4))}:
             bad('C02-T', 'doubleword split [%s]' % tag, 'a doubleword transfer is one 8-byte access or the words at address and address+4; found %s' %
                 sorted((s, fmt(z)) for s, z in shapes))
